@@ -150,6 +150,8 @@ class Holder:
 class OpsSeq(Model):
     """operand tuple of a gate read from the abstract gate map (immutable snapshot)"""
 
+    immutable_tuple = True
+
     def __init__(self, n, elem, count):
         self.n, self.elem, self.count = n, elem, count
 
@@ -190,6 +192,21 @@ class OpsSeq(Model):
 
     def m_copy(self, it):
         return self
+
+    def m_subst(self, it, a, b):
+        """tuple(b if x == a else x for x in self): every occurrence of a replaced by b (count under substitution)"""
+        at, bt = it.label_term(a), it.label_term(b)
+        el, cn = self.elem, self.count
+
+        def elem(i):
+            e = el(i)
+            return z3.If(e == at, bt, e)
+
+        def count(g):
+            return z3.If(at == bt, cn(g), z3.If(g == bt, cn(bt) + cn(at), z3.If(g == at, 0, cn(g))))
+        o = OpsSeq(self.n, elem, count)
+        o.prefix = []
+        return o
 
     def m_eq(self, it, other):
         if other is self:
@@ -585,6 +602,28 @@ class UsersMap(Model):
             it.raise_('KeyError', 'users')
         return UsersRef(self.h, kt)
 
+    def m_getattr(self, it, name):
+        if name == 'pop':
+            def pop(k, *default):
+                kt = it.label_term(k)
+                if it.ctx.choose(_simp(self.h.S.udom(kt))):
+                    snap = self.h.S
+                    self.m_delitem(it, k)
+                    h2 = Holder(snap, self.h.name + '!popped')       # the removed list, as it was
+                    return UsersRef(h2, kt)
+                if not default:
+                    it.raise_('KeyError', 'users')
+                return default[0]
+            return Native('users.pop', pop)
+        if name == 'get':
+            def get(k, default=None):
+                kt = it.label_term(k)
+                if it.ctx.choose(_simp(self.h.S.udom(kt))):
+                    return UsersRef(self.h, kt)
+                return default
+            return Native('users.get', get)
+        raise Unsupported(f'_gate_to_users.{name} on an abstract circuit')
+
     def m_setitem(self, it, k, v):
         old = self.h.S
         kt = it.label_term(k)
@@ -598,6 +637,7 @@ class UsersMap(Model):
             self.h.events.append(('users-alias', kt, src))
             S.cnt = lambda g, u: z3.If(g == kt, old.cnt(src, u), old.cnt(g, u))
             S.tot = lambda g: z3.If(g == kt, old.tot(src), old.tot(g))
+            S.uelem = lambda g, j: z3.If(g == kt, old.uelem(src, j), old.uelem(g, j))
         else:
             raise Unsupported('users[...] = ' + type(v).__name__)
         S.udom = lambda l: z3.Or(l == kt, old.udom(l))
@@ -656,8 +696,63 @@ class LabelList(Model):
             it.raise_('IndexError', 'list index out of range')
         return Sym(elem(z3.simplify(z3.If(kt < 0, kt + n, kt))))
 
+    def m_positions_eq(self, it, x):
+        """[i for i, y in enumerate(self) if y == x]: the strictly increasing enumeration pos(0..m-1) of ALL positions
+        holding x, m = count(x) (semantics of the filter comprehension; inv is the inverse enumeration)"""
+        from .models import SymSeq
+        n, elem, cnt = self._get(self.h.S)
+        xt = it.label_term(x)
+        LabelList._np = getattr(LabelList, '_np', 0) + 1
+        pos = z3.Function(f'pos!{LabelList._np}', I, I)
+        inv = z3.Function(f'posinv!{LabelList._np}', I, I)
+        m = cnt(xt)
+        j, i = z3.Int('j!ps'), z3.Int('i!ps')
+        ctx = it.ctx
+        ctx.assume(z3.ForAll([j], z3.Implies(z3.And(j >= 0, j < m), z3.And(pos(j) >= 0, pos(j) < n, elem(pos(j)) == xt, inv(pos(j)) == j)), patterns=[pos(j)]))
+        ctx.assume(z3.ForAll([j], z3.Implies(z3.And(j >= 0, j + 1 < m), pos(j) < pos(j + 1)), patterns=[pos(j + 1)]))
+        ctx.assume(z3.ForAll([i], z3.Implies(z3.And(i >= 0, i < n, elem(i) == xt), z3.And(inv(i) >= 0, inv(i) < m, pos(inv(i)) == i)), patterns=[inv(i)]))
+        seq = SymSeq([], m, lambda jj: pos(jj), 'list')
+        seq.positions_of = (self, xt, pos, inv, (n, elem, cnt))
+        return seq
+
+    def m_setitem(self, it, k, v):
+        """self[k] = v  for an int position k (symbolic) or the token returned by .index(x)"""
+        old = self.h.S
+        n, elem, cnt = self._get(old)
+        vt = it.label_term(v)
+        if isinstance(k, ListIndex):
+            p = it.ctx.fresh(I, 'firstpos')
+            j = z3.Int('j!fp')
+            it.ctx.assume(z3.And(p >= 0, p < n, elem(p) == k.xt))
+            it.ctx.assume(z3.ForAll([j], z3.Implies(z3.And(j >= 0, j < p), elem(j) != k.xt)))
+            pt = p
+        else:
+            pt = it.int_term(k)
+            if not it.ctx.choose(_simp(z3.And(pt >= -n, pt < n))):
+                it.raise_('IndexError', 'list assignment index out of range')
+            pt = z3.simplify(z3.If(pt < 0, pt + n, pt))
+        was = elem(pt)
+        S = old.copy()
+        w = self.w
+        setattr(S, w + '_elem', lambda i: z3.If(i == pt, vt, elem(i)))
+
+        def c2(l, cnt=cnt):
+            c = cnt(l)
+            return c - z3.If(l == was, 1, 0) + z3.If(l == vt, 1, 0)
+        setattr(S, w + '_cnt', c2)
+        self.h.S = S
+
     def m_getattr(self, it, name):
         h, w = self.h, self.w
+        if name == 'index':
+            def index(x, *a):
+                if a:
+                    raise Unsupported('index with bounds')
+                xt = it.label_term(x)
+                if not it.ctx.choose(_simp(self._get(h.S)[2](xt) > 0)):
+                    it.raise_('ValueError', 'x not in list')
+                return ListIndex(xt)
+            return Native('labels.index', index)
         if name == 'append':
             def append(x):
                 old, xt = h.S, it.label_term(x)
@@ -706,6 +801,13 @@ class LabelList(Model):
         return seq
 
 
+class ListIndex:
+    """result of list.index(x): the first position holding x (only used to write back into the same list)"""
+
+    def __init__(self, xt):
+        self.xt = xt
+
+
 class GenericBlock(Model):
     """the one generic block of the abstract blocks map (fields read the current state)"""
 
@@ -719,7 +821,21 @@ class GenericBlock(Model):
         if name in ('gates', '_gates', 'inputs', '_inputs', 'outputs', '_outputs'):
             return BlockList(h, {'g': 'bg', 'i': 'bi', 'o': 'bo'}[name.lstrip('_')[0]])
         if name == '_rename_gate':
-            raise Unsupported('Block._rename_gate on abstract block')
+            # summary of Block._rename_gate (its body is verified separately on lists of concrete length, C19):
+            # every occurrence of old in inputs / gates / outputs becomes new
+            def rename(old_label, new_label):
+                a, b = it.label_term(old_label), it.label_term(new_label)
+                old = h.S
+                S = old.copy()
+                for fld in ('bg', 'bi', 'bo'):
+                    f = getattr(old, fld)
+
+                    def sub(l, f=f):
+                        return z3.If(a == b, f(l), z3.If(l == b, f(b) + f(a), z3.If(l == a, 0, f(l))))
+                    setattr(S, fld, sub)
+                h.S = S
+                return self
+            return Native('Block._rename_gate', rename)
         raise Unsupported('Block.' + name)
 
 
@@ -830,13 +946,17 @@ class UsersLoop:
         self.base = None
 
     def applies(self, it, env, iterable):
+        self.iterable = iterable
         return isinstance(iterable, OpsSeq) and iterable.concrete_len(it) is None
 
     def _setup(self, it, env):
         if self.base is not None:
             return
         UsersLoop._n += 1
-        ops, lab = self.get(it, env)
+        if callable(self.get):
+            ops, lab = self.get(it, env)
+        else:                       # the operand tuple is the iterated sequence itself; get = the user label
+            ops, lab = self.iterable, self.get
         self.ops, self.lab = ops, lab
         self.base = self.h.S
         pc = z3.Function(f'pc!{UsersLoop._n}', I, LabelSort, I)
